@@ -104,6 +104,15 @@ impl JobState {
         }
     }
 
+    fn is_aborted(&self) -> bool {
+        matches!(
+            self,
+            JobState::Always(JobStateAlways::FinishedAborted)
+                | JobState::Output(JobStateOutput::FinishedAborted)
+                | JobState::Ephemeral(JobStateEphemeral::FinishedAborted)
+        )
+    }
+
     fn is_upstream_failure(&self) -> bool {
         match self {
             JobState::Always(JobStateAlways::FinishedUpstreamFailure) => true,
@@ -797,7 +806,8 @@ impl<T: PPGEvaluatorStrategy> PPGEvaluator<T> {
                     job.state.is_failed()
                         || Self::_job_and_downstreams_are_ephemeral(&self.dag, &self.jobs, idx)
                 );
-                if !job.state.is_upstream_failure() {
+                // ... and likewise if the abort came before it was ever started.
+                if !(job.state.is_upstream_failure() || job.state.is_aborted()) {
                     out.remove(&job.job_id);
                     out.remove(&input_name_key);
                 }
@@ -1535,6 +1545,29 @@ impl<T: PPGEvaluatorStrategy> PPGEvaluator<T> {
                         // an aborted job is no longer on offer
                         self.jobs_ready_to_run.remove(&j.job_id);
                         match j.state {
+                            // a job that was executing when the run was aborted did not finish:
+                            // it failed (python reports it as such before aborting, anyhow)
+                            JobState::Always(JobStateAlways::Running) => {
+                                set_node_state!(
+                                    j,
+                                    JobState::Always(JobStateAlways::FinishedFailure),
+                                    self.gen
+                                );
+                            }
+                            JobState::Output(JobStateOutput::Running) => {
+                                set_node_state!(
+                                    j,
+                                    JobState::Output(JobStateOutput::FinishedFailure),
+                                    self.gen
+                                );
+                            }
+                            JobState::Ephemeral(JobStateEphemeral::Running(_)) => {
+                                set_node_state!(
+                                    j,
+                                    JobState::Ephemeral(JobStateEphemeral::FinishedFailure),
+                                    self.gen
+                                );
+                            }
                             JobState::Ephemeral(_) => {
                                 set_node_state!(
                                     j,
